@@ -97,22 +97,37 @@ Proof.
   unfold unset_selected. induction (client_selected sc sub) as [|h r IH]; intros s x H; cbn [fold_left] in H; [exact H|].
   apply IH in H. apply sc_unset_h_sub in H. exact H.
 Qed.
-Lemma unset_children_other sc ss ip : forall s x, In x s ->
-  (forall a n ty d y sub, In (SanField a n ty d (y :: sub)) ss -> fst (fst x) = ip ++ [a] ->
-                          ~ selected_for (client_selected sc (y :: sub)) (snd (fst x)) (snd x)) ->
-  In x (unset_children sc ss ip s).
+Lemma closing_other sc ss ip s x : In x s -> fst (fst x) <> ip -> In x (closing sc ss ip s).
+Proof. intros H Hp. unfold closing. apply unset_level_other; assumption. Qed.
+
+(* the table after the client's own selections of the whole operation are taken out *)
+Lemma unset_pending_other ps : forall s x, In x s ->
+  (forall p h, In (p, h) ps -> fst (fst x) = p -> ~ selected_for [h] (snd (fst x)) (snd x)) -> In x (unset_pending ps s).
 Proof.
-  unfold unset_children. induction ss as [|z r IH]; intros s x H Hn; cbn [fold_left]; [exact H|].
+  unfold unset_pending. induction ps as [|[p h] r IH]; intros s x H Hn; cbn [fold_left]; [exact H|].
   apply IH.
-  - destruct z as [a n ty d [|y sub]|c o fd sub]; [exact H| |exact H].
-    apply unset_selected_other; [exact H|]. intros E. apply (Hn a n ty d y sub); [left; reflexivity|exact E].
-  - intros a n ty d y sub Hin. apply (Hn a n ty d y sub). right. exact Hin.
+  - cbn [fst snd]. apply sc_unset_h_other; [exact H|]. intros E. apply (Hn p h); [left; reflexivity|exact E].
+  - intros p' h' Hin. apply (Hn p' h'). right. exact Hin.
 Qed.
-Lemma closing_other sc ss ip s x : In x s -> fst (fst x) <> ip ->
-  (forall a n ty d y sub, In (SanField a n ty d (y :: sub)) ss -> fst (fst x) = ip ++ [a] ->
-                          ~ selected_for (client_selected sc (y :: sub)) (snd (fst x)) (snd x)) ->
-  In x (closing sc ss ip s).
-Proof. intros H Hp Hn. unfold closing. apply unset_children_other; [apply unset_level_other; assumption|exact Hn]. Qed.
+Lemma unset_pending_sub ps : forall s x, In x (unset_pending ps s) -> In x s.
+Proof.
+  unfold unset_pending. induction ps as [|[p h] r IH]; intros s x H; cbn [fold_left] in H; [exact H|].
+  apply IH in H. apply sc_unset_h_sub in H. exact H.
+Qed.
+Lemma sc_unset_h_gone s path h T : (fst h = Some T \/ fst h = None) -> ~ In (path, T, snd h) (sc_unset_h s path h).
+Proof.
+  destruct h as [[t|] f]; unfold sc_unset_h; cbn [fst snd]; intros [E|E]; try discriminate.
+  - inversion E; subst. apply sc_unset_type_gone.
+  - unfold sc_unset. intros H. apply filter_In in H as [_ H]. cbn [fst snd] in H.
+    assert (Ep : path_eqb path path = true) by (apply path_eqb_eq; reflexivity). rewrite Ep, String.eqb_refl in H. discriminate.
+Qed.
+Lemma unset_pending_gone ps : forall s p h T, In (p, h) ps -> (fst h = Some T \/ fst h = None) -> ~ In (p, T, snd h) (unset_pending ps s).
+Proof.
+  unfold unset_pending. induction ps as [|[p0 h0] r IH]; intros s p h T Hin HT; [destruct Hin|]. cbn [fold_left fst snd].
+  destruct Hin as [E|Hin]; [|apply IH; assumption]. inversion E; subst p0 h0. intros H.
+  change (fold_left (fun acc q => sc_unset_h acc (fst q) (snd q)) r (sc_unset_h s p h)) with (unset_pending r (sc_unset_h s p h)) in H.
+  apply unset_pending_sub in H. apply (sc_unset_h_gone s p h T HT H).
+Qed.
 
 (* the types an object selected through a field of type ty can have, as far as registration goes *)
 Definition reg_types (sc : sschema) (ty : string) : list string :=
@@ -225,24 +240,19 @@ Definition added_for (tm : tmap) (sc : sschema) (ip : list string) (a ty : strin
 Definition selection_for (tm : tmap) (sc : sschema) (ip : list string) (a ty : string) (sub : list ssel) : list ssel :=
   fst (add_scrub_fields tm sc (fst (sanitize tm sc sub (ip ++ [a]))) ty false).
 
-(* no selection of that response key at that place selects the field itself — directly, or through a fragment that
-   applies to objects of that type *)
-Definition not_client_selected (sc : sschema) (ss : list ssel) (ip : list string) (a : string) (ip' : list string) (T f : string) : Prop :=
-  forall n' ty' d' sub', occ ss ip (SanField a n' ty' d' sub') ip' -> ~ selected_for (client_selected sc sub') T f.
-
 Lemma tail_neq (ip ip' : list string) (a a0 : string) : List.length ip < List.length ip' -> ip' ++ [a] <> ip ++ [a0].
 Proof. intros Hl E. apply (f_equal (@List.length string)) in E. rewrite !app_length in E. cbn in E. lia. Qed.
 
-Theorem added_helpers_are_registered tm sc : forall ss ip a n ty d x sub ip',
+(* level by level: what is added to the selection of a field is registered in the table the level returns *)
+Theorem added_helpers_are_registered_level tm sc : forall ss ip a n ty d x sub ip',
   occ ss ip (SanField a n ty d (x :: sub)) ip' ->
   forall f T, In f (added_for tm sc ip' a ty (x :: sub)) -> In T (reg_types sc ty) ->
   (kind_of sc ty = KOther \/ frag_has (selection_for tm sc ip' a ty (x :: sub)) T f = false) ->
-  not_client_selected sc ss ip a ip' T f ->
   In (ip' ++ [a], T, f) (snd (sanitize tm sc ss ip)).
 Proof.
   intros ss ip a n ty d x sub ip' Hocc. remember (SanField a n ty d (x :: sub)) as s eqn:Es.
   induction Hocc as [ss ip s Hin | ss ip a0 n0 ty0 d0 sub0 s ip' Hin Hocc IH | ss ip c o fd sub0 s ip' Hin Hocc IH];
-    intros f T Hf HT Hfr Hcs; rewrite sanitize_level; cbn [snd].
+    intros f T Hf HT Hfr; rewrite sanitize_level; cbn [snd].
   - subst s. apply closing_other.
     + apply in_split in Hin as (l1 & l2 & ->). unfold level. rewrite fold_left_app. cbn [fold_left].
       apply level_mono.
@@ -251,11 +261,7 @@ Proof.
       destruct (add_scrub_fields tm sc child ty false) as [child' added]. cbn [fst snd] in *.
       apply set_missing_in; assumption.
     + cbn [fst]. intros E. apply (f_equal (@List.length string)) in E. rewrite app_length in E. cbn in E. lia.
-    + cbn [fst snd]. intros a' n' ty' d' y' sub' Hin' E. apply app_inj_tail in E as [_ <-].
-      apply (Hcs n' ty' d' (y' :: sub')). apply occ_here. exact Hin'.
-  - assert (Hcs' : not_client_selected sc sub0 (ip ++ [a0]) a ip' T f).
-    { intros n' ty' d' sub' Ho. apply (Hcs n' ty' d' sub'). eapply occ_field; eassumption. }
-    specialize (IH Es f T Hf HT Hfr Hcs'). pose proof (occ_longer _ _ _ _ Hocc) as Hlen. rewrite app_length in Hlen. cbn in Hlen.
+  - specialize (IH Es f T Hf HT Hfr). pose proof (occ_longer _ _ _ _ Hocc) as Hlen. rewrite app_length in Hlen. cbn in Hlen.
     apply closing_other.
     + apply in_split in Hin as (l1 & l2 & ->). unfold level. rewrite fold_left_app. cbn [fold_left].
       apply level_mono.
@@ -265,10 +271,7 @@ Proof.
       destruct (add_scrub_fields tm sc child ty0 false) as [child' added]. cbn [snd].
       apply set_missing_mono, sc_merge_right, IH.
     + cbn [fst]. intros E. apply (f_equal (@List.length string)) in E. rewrite app_length in E. cbn in E. lia.
-    + cbn [fst snd]. intros a' n' ty' d' y' sub' _ E. exfalso. revert E. apply tail_neq. lia.
-  - assert (Hcs' : not_client_selected sc sub0 ip a ip' T f).
-    { intros n' ty' d' sub' Ho. apply (Hcs n' ty' d' sub'). eapply occ_frag; eassumption. }
-    specialize (IH Es f T Hf HT Hfr Hcs'). pose proof (occ_longer _ _ _ _ Hocc) as Hlen.
+  - specialize (IH Es f T Hf HT Hfr). pose proof (occ_longer _ _ _ _ Hocc) as Hlen.
     apply closing_other.
     + apply in_split in Hin as (l1 & l2 & ->). unfold level. rewrite fold_left_app. cbn [fold_left].
       apply level_mono.
@@ -279,9 +282,55 @@ Proof.
       { apply set_frag_mono, sc_merge_right, IH. }
       destruct (kind_of sc o); cbn [snd]; assumption.
     + cbn [fst]. intros E. apply (f_equal (@List.length string)) in E. rewrite app_length in E. cbn in E. lia.
-    + (* a field next to the fragment with the same response key, at the same place *)
-      cbn [fst snd]. intros a' n' ty' d' y' sub' Hin' E. apply app_inj_tail in E as [-> <-].
-      apply (Hcs n' ty' d' (y' :: sub')). apply occ_here. exact Hin'.
+Qed.
+
+(* ---- the whole operation ---- *)
+Lemma pending_go sc ip sub :
+  (fix go (l : list ssel) := match l with [] => [] | x :: r => pending_sel sc ip x ++ go r end) sub = pending_of sc ip sub.
+Proof. unfold pending_of. induction sub as [|x r IH]; cbn [flat_map]; [reflexivity|]. rewrite IH. reflexivity. Qed.
+(* every selection of a field, wherever it occurs, contributes what the client selects below it, under its response path *)
+Lemma occ_pending sc : forall ss ip a n ty d x sub ip' h,
+  occ ss ip (SanField a n ty d (x :: sub)) ip' -> In h (client_selected sc (x :: sub)) -> In (ip' ++ [a], h) (pending_of sc ip ss).
+Proof.
+  intros ss ip a n ty d x sub ip' h Hocc. remember (SanField a n ty d (x :: sub)) as s eqn:Es.
+  induction Hocc as [ss ip s Hin | ss ip a0 n0 ty0 d0 sub0 s ip' Hin Hocc IH | ss ip c o fd sub0 s ip' Hin Hocc IH]; intros Hh.
+  - subst s. unfold pending_of. apply in_flat_map. exists (SanField a n ty d (x :: sub)). split; [exact Hin|].
+    cbn [pending_sel]. apply in_or_app. left. apply in_map_iff. exists h. split; [reflexivity|exact Hh].
+  - specialize (IH Es Hh). unfold pending_of. apply in_flat_map. exists (SanField a0 n0 ty0 d0 sub0). split; [exact Hin|].
+    destruct sub0 as [|y sub0']; [inversion Hocc; subst; match goal with H : In _ [] |- _ => destruct H end|].
+    cbn [pending_sel]. rewrite pending_go. apply in_or_app. right. exact IH.
+  - specialize (IH Es Hh). unfold pending_of. apply in_flat_map. exists (SanFrag c o fd sub0). split; [exact Hin|].
+    cbn [pending_sel]. rewrite pending_go. exact IH.
+Qed.
+
+(* no selection of a field with that response path, anywhere in the operation, selects the field itself — directly, or
+   through a fragment that applies to objects of that type *)
+Definition not_client_selected (sc : sschema) (ss : list ssel) (path : list string) (T f : string) : Prop :=
+  forall h, In (path, h) (pending_of sc [] ss) -> ~ selected_for [h] T f.
+
+Theorem added_helpers_are_registered tm sc : forall ss a n ty d x sub ip',
+  occ ss [] (SanField a n ty d (x :: sub)) ip' ->
+  forall f T, In f (added_for tm sc ip' a ty (x :: sub)) -> In T (reg_types sc ty) ->
+  (kind_of sc ty = KOther \/ frag_has (selection_for tm sc ip' a ty (x :: sub)) T f = false) ->
+  not_client_selected sc ss (ip' ++ [a]) T f ->
+  In (ip' ++ [a], T, f) (snd (sanitize_op tm sc ss)).
+Proof.
+  intros ss a n ty d x sub ip' Hocc f T Hf HT Hfr Hcs. unfold sanitize_op.
+  pose proof (added_helpers_are_registered_level tm sc ss [] a n ty d x sub ip' Hocc f T Hf HT Hfr) as H.
+  destruct (sanitize tm sc ss []) as [result scr]. cbn [snd] in *.
+  apply unset_pending_other; [exact H|]. cbn [fst snd]. intros p h Hin E. subst p. apply (Hcs h Hin).
+Qed.
+
+(* and the other way round: what the client selects himself below a field — in any of its selections — is not in the
+   table under that field's response path, for the types it selects it for: it stays in the answer *)
+Theorem client_selected_helpers_stay tm sc : forall ss a n ty d x sub ip' h T,
+  occ ss [] (SanField a n ty d (x :: sub)) ip' -> In h (client_selected sc (x :: sub)) ->
+  (fst h = Some T \/ fst h = None) ->
+  ~ In (ip' ++ [a], T, snd h) (snd (sanitize_op tm sc ss)).
+Proof.
+  intros ss a n ty d x sub ip' h T Hocc Hh HT. unfold sanitize_op.
+  destruct (sanitize tm sc ss []) as [result scr]. cbn [snd].
+  apply unset_pending_gone; [|exact HT]. eapply occ_pending; eassumption.
 Qed.
 
 (* what add_scrub_fields adds are the two helper names, each at most once, and only when the selection lacks it *)
